@@ -117,11 +117,14 @@ CHECKS["C15"] = dict(
          "lists equal the extracted model's on the same duals; 1D/2D requests rejected on both conversion paths (debug build, so an unchecked None would trap).",
     note="Partial: Euler's relation and the walk in sort_face_vertices are checked per cell, not proved; the type-state invariant relies on Rust privacy.", design="5 C15")
 CHECKS["C20"] = dict(
-    technique="Coq proof of the cell-pruning bound (clamp admissibility) + exact brute-force differential run through hooks",
-    text="Theorem: the per-axis clamp point of a grid cell is at least as close to the query as any particle in the cell (skip rule is safe). Tie: hooked Space::knn against "
-         "exact rational brute force for cubic and non-cubic boxes, sparse grids, all k; Welzl/EPOS-6 (points and spheres) containment and Welzl minimality against the "
-         "best sphere through <= 4 input points.",
-    note="Welzl's recursion and the ring-termination bound are not proved (brute-force oracle per run). Known finding F5: zero-size configurations (single point, "
+    technique="Coq proof of the ring-by-ring kNN search (bounded heap as sorted list, cell skipping, ring termination) and of both pruning bounds + extracted model and exact brute force run against the hooked code",
+    text="Theorems: for every list of rings of cells whose bounds are admissible, every k: the search returns the k nearest candidates in increasing distance (= first k of the "
+         "sorted distances, i.e. brute force), whatever was skipped; the per-axis clamp bound and the ring bound dist_to_face + r*min width are admissible for any cell widths. "
+         "Tie: hooked Space::knn against exact rational brute force for cubic and non-cubic boxes, sparse grids, adversarial ring-gap configurations, all k; the grid replicated "
+         "with the same IEEE operations and the extracted search model run on sampled queries (distance sequences must agree); Welzl/EPOS-6 (points and spheres) containment "
+         "and Welzl minimality against the best sphere through <= 4 input points.",
+    note="Welzl's recursion is not proved (brute-force oracle per run); the kNN theorems are about an ideal grid (cell corners i*w exactly) - rounding of the cell corners is "
+         "outside the model, the admissibility hypothesis rings_wf is decided exactly for every compared query. Known finding F5: zero-size configurations (single point, "
          "coincident points, zero-radius spheres).", design="5 C20")
 
 CHECKS["C05"] = dict(
